@@ -13,7 +13,9 @@ RULE = ("files of 1..MaxSegs6 segments over two channels (value widths 1/4/8/16 
 
 CONFIGS = {
     "quick": [("MC_C06", "MC_C06.cfg", {"MaxSegs6": 1, "Widths": "{1, 4, 0}", "NVals6": "{1, 2}", "KVals6": "{1, 2}"}, 1),
-              ("MC_C06", "MC_C06.cfg", {"MaxSegs6": 2, "Widths": "{8, 0}", "NVals6": "{2}", "KVals6": "{2}"}, 2)],
+              ("MC_C06", "MC_C06.cfg", {"MaxSegs6": 2, "Widths": "{8, 0}", "NVals6": "{2}", "KVals6": "{2}"}, 2),
+              # 16-byte values (timestamps, complex doubles), alone and beside a narrow channel
+              ("MC_C06", "MC_C06.cfg", {"MaxSegs6": 1, "Widths": "{16, 1}", "NVals6": "{2}", "KVals6": "{1, 2}"}, 1)],
     "thorough": [("MC_C06", "MC_C06.cfg", {"MaxSegs6": 1, "Widths": "{1, 4, 8, 16, 0}", "NVals6": "{1, 2, 3}",
                                            "KVals6": "{1, 2, 3}"}, 1),
                  ("MC_C06", "MC_C06.cfg", {"MaxSegs6": 2, "Widths": "{1, 8, 0}", "NVals6": "{1, 2}", "KVals6": "{1, 3}"}, 1)],
